@@ -64,7 +64,7 @@ def cases():
     return out
 
 
-KINDS = ["home-root", "home-own-volume", "top", "alt", "custom"]
+KINDS = ["home-root", "home-own-volume", "top", "alt", "custom", "home-own-volume-cli", "home-root-cli"]
 
 
 def one(task):
@@ -75,10 +75,11 @@ def one(task):
     home = w.dir(R + b"/home/u")
     w.mount(R + b"/vol1")
     env = {"HOME": home}
-    if kind == "home-own-volume":
+    cli = kind.endswith("-cli")          # the home trash directory named explicitly with --trash-dir
+    if kind.startswith("home-own-volume"):
         w.mount(R + b"/home")
-    if kind in ("home-root", "home-own-volume"):
-        t, base, vol = home + b"/.local/share/Trash", b"/", (R + b"/home" if kind == "home-own-volume" else R)
+    if kind.startswith("home-"):
+        t, base, vol = home + b"/.local/share/Trash", b"/", (R + b"/home" if kind.startswith("home-own-volume") else R)
     elif kind == "top":
         w.dir(R + b"/vol1/.Trash", 0o1777)
         t, base, vol = R + b"/vol1/.Trash/%d" % uid, R + b"/vol1", R + b"/vol1"
@@ -94,7 +95,7 @@ def one(task):
     w.file(t + b"/files/e", b"payload")
     w.dir(vol + b"/w")
     meta = {"entries": [], "tdirs": [(t, None)], "profile": "c20", "payload_kinds": ["file"]}
-    custom = {"userDirs": [t]} if kind == "custom" else {}
+    custom = {"userDirs": [t]} if kind == "custom" or cli else {}
 
     def run(cmd, opts=None, args=(), stdin=None, envx=None):
         e = dict(env)
@@ -113,7 +114,7 @@ def one(task):
         return {"problems": problems, "mismatch": mism, "tags": tags, "key": (shape, ptempl, date, kind)}
     ldate, lpath = m.group(1), m.group(2)
     ropts = {"path": b"/", "sort": "date"}
-    if kind == "custom":
+    if kind == "custom" or cli:
         ropts["trashDir"] = t
     rr = run("restore", ropts, stdin=b"\n")
     mism += [("restore-listing", m_) for m_ in rr["mismatch"]]
@@ -135,7 +136,7 @@ def one(task):
             if r2["obs_exit"] == 0 and r2["after_state"].get(dest, (None,))[0] != "f":
                 problems.append("restored somewhere else than the path shown: %r" % lpath)
     # trash-rm with the exact path shown by list (metacharacters bracketed)
-    if kind != "custom":
+    if kind != "custom" and not cli:
         pat = b"".join((b"[" + bytes([c]) + b"]") if c in b"*?[" else bytes([c]) for c in lpath)
         if pat.startswith(b"/"):
             r3 = run("rm", args=[pat])
